@@ -1,5 +1,6 @@
 """C07 Unit names resolve exact first, then prefix, then plural.  DESIGN.md section 4, C07."""
 import cg
+import facts
 import k2
 from facts import AnchorLost, ap_str, ap_calls
 
@@ -104,6 +105,15 @@ def family(chk, F, fam, exact, withp, full, policy):
         if "callee" in t and t["callee"]["path"].endswith("IntoIterator>::into_iter"):
             ap = fn.apath(t["args"][0])
             src = ap_str(ap)
+    if src is None:
+        # `self.prefixes.iter()` driving a find_map / any that has been put back as the loop it stands for
+        for bb, t in fn.calls():
+            if "callee" in t and t["callee"]["path"].endswith(("<impl [T]>::iter", "Vec::<T, A>::iter")) and t["args"]:
+                ap = fn.apath(t["args"][0])
+                while ap[0][0] == "call" and len(ap[0][2]) == 1 and ap[0][1].endswith(("Deref>::deref", "::as_slice")) and not ap[1]:
+                    ap = ap[0][2][0]
+                if any("callee" in t2 and t2["callee"]["path"].endswith("Iterator>::next") and bb in [x for x in range(len(fn.blocks)) if fn.dominates(bb, b2)] for b2, t2 in fn.calls()):
+                    src = ap_str(ap)
     pol["iterates"] = src
     if fam.startswith("Registry"):
         chk.decide(src == "arg1.prefixes" and not reorder, "prefix-iteration", fk, "forward-over-prefix-table", fn.where(),
@@ -114,11 +124,12 @@ def family(chk, F, fam, exact, withp, full, policy):
             returns = False
             reach = fn.reachable(b)
             for i, j, st in fn.stmts():
-                if i in reach and st["k"] == "assign" and st["place"]["l"] == 0 and st["rv"].get("k") == "agg" and st["rv"].get("variant") == "Some":
+                if i in reach and st["k"] == "assign" and not st["place"]["p"] and st["rv"].get("k") == "agg" and st["rv"].get("variant") == "Some" \
+                        and str(st["rv"].get("adt", "")).endswith("option::Option"):
                     if "pos" in k2.labels_on_call(fn, i, b):
-                        # from that block the loop header must not be reachable before return
-                        returns = b not in fn.reachable(i) or True
-                        hdr_again = b in fn.reachable(i)
+                        # from that block the loop header must not be reachable before return (the value just built is a Some:
+                        # a test of it that follows - the `find_map` loop's own - takes its Some side)
+                        hdr_again = b in k2.reach_known(fn, i, st["place"]["l"], "Some")
                         returns = not hdr_again
             chk.decide(returns, "prefix-iteration", fk, "first-hit-returns", fn.where(b),
                        "a prefixed hit leaves the loop immediately (first matching prefix in table order wins)",
@@ -233,28 +244,41 @@ def prefixed_value(chk, fn, fk, c2):
     """Some(exact(rest) * Number::new(value.clone())) with value from the same tuple as the matched prefix."""
     ok = False
     detail = ""
+
+    def peel(ap):
+        for _ in range(4):
+            if ap[1][-2:] in (("as Some", "0"), ("as Continue", "0"), ("as Ok", "0")):
+                ap = (ap[0], ap[1][:-2])
+            if ap[0][0] == "call" and ap[0][2] and not ap[1] and ap[0][1].endswith(("Option::<T>::unwrap", "Try>::branch", "Option::<T>::expect")):
+                ap = ap[0][2][0]
+        return ap
+
     for i, j, st in fn.stmts():
-        if st["k"] == "assign" and st["place"]["l"] == 0 and st["rv"].get("k") == "agg" and st["rv"].get("variant") == "Some":
+        if st["k"] == "assign" and not st["place"]["p"] and st["rv"].get("k") == "agg" and st["rv"].get("variant") == "Some":
             ap = fn.apath(st["rv"]["ops"][0])
             s = ap_str(ap)
             if "ops::arith::Mul" in s:
                 detail = s
-                r = ap[0]
-                # unwrap(mul(a, b))
-                mul = r[2][0][0] if r[0] == "call" and r[1].endswith("unwrap") else r
+                mul = peel(ap)[0]
                 if mul[0] == "call" and mul[1].endswith("::mul"):
                     a, b = mul[2]
-                    a_ok = k2._root_call_bb(a) == c2 and a[1] == ("as Some", "0")
-                    bs = ap_str(b)
-                    b_ok = bs.startswith("types::number::Number::new(<types::numeric::Numeric as core::clone::Clone>::clone(") and bs.endswith("as Some.0.1))")
-                    # the prefix string used for starts_with / slicing is field 0 of the same item
-                    item_b = b[0][2][0][0][2][0]
+                    a_ok = k2._root_call_bb(peel(a)) == c2 and not peel(a)[1]
+                    nb = b[0]
+                    b_ok = nb[0] == "call" and nb[1].endswith("Number::new") and nb[2] and nb[2][0][0][0] == "call" and nb[2][0][0][1].endswith("Clone>::clone")
+                    if not b_ok:
+                        continue
+                    val = nb[2][0][0][2][0]
+                    b_ok = val[1][-1:] == ("1",) and "::next(" in ap_str(val)
+                    item = (val[0], val[1][:-1])
+                    # the prefix string used for starts_with / strip_prefix is field 0 of the same item
                     same_item = False
                     for bb, t in fn.calls():
-                        if "callee" in t and t["callee"]["path"].endswith("starts_with"):
+                        if "callee" in t and t["callee"]["path"].endswith(("starts_with", "strip_prefix")):
                             p = fn.apath(t["args"][1])
-                            same_item = p[0] == item_b[0] and p[1] == item_b[1][:-1] + ("0",)
-                    ok = a_ok and b_ok and same_item
+                            while p[0][0] == "call" and len(p[0][2]) == 1 and not p[1] and p[0][1].endswith(("::as_str", "Deref>::deref", "Borrow<str>>::borrow", "AsRef<str>>::as_ref")):
+                                p = p[0][2][0]
+                            same_item = same_item or facts.ap_match(p, (item[0], item[1] + ("0",)))
+                    ok = ok or (a_ok and b_ok and same_item)
     chk.decide(ok, "prefix-iteration", fk, "value-is-unit-times-same-prefix", fn.where(c2),
                "prefixed value = exact(rest of name) x the value paired with the matched prefix",
                "prefixed value is not exact(rest) * value-of-the-matched-prefix: %s" % detail[:200])
@@ -389,8 +413,9 @@ def exact_stage(chk, F):
     `units` and `base_units`; `definitions` also holds quantities (`mass ? kg`), so the canonicaliser's read of `definitions`
     must lie behind `units.contains_key(name)` (otherwise `mass` - the plural of `mas` for lookup - canonicalises to
     kilogram)."""
-    lk = F.find(CORE, "loader::registry::Registry::lookup_exact")
-    cn = F.find(CORE, "loader::registry::Registry::canonicalize_exact")
+    # (normalised: a container read inside `x.or_else(|| self.units.get(name)..)` is a read of the function)
+    lk = F.find(CORE, "loader::registry::Registry::lookup_exact", inline=True, keep=("Registry::lookup", "Registry::canonicalize"))
+    cn = F.find(CORE, "loader::registry::Registry::canonicalize_exact", inline=True, keep=("Registry::lookup", "Registry::canonicalize"))
 
     def containers(fn):
         out = set()
